@@ -26,7 +26,8 @@ def extra_builds(tier):
 
 
 def bounds(tier):
-    return {"u8_pairs": 65536, "u64_values": len(s64()), "array_lengths": "0..=40", "swap_set_N": [1, 4, 5, 10]}
+    return {"u8_pairs": 65536, "u64_values": len(s64()), "array_lengths": "0..=40", "swap_set_N": [1, 4, 5, 10],
+            "macresult_lengths": "0..=40, 255..65536, unequal by 1 / 256 / 512 / 65536"}
 
 
 def s64():
